@@ -50,7 +50,7 @@ func runC15(t *testing.T, seed uint64, m *Mask) *Report {
 	sc, nc, r := swarm(seed, m)
 	opt := world.Options{Seed: seed, Sim: sc, Net: nc}
 	proto := []string{"raw", "raw", "json", "pb", "thrift-binary"}[r.Intn(5)]
-	kinds := []string{"ok", "notfound", "badbody", "panic", "veto", "closed_call", "cut_pending", "dial_fail", "proxy_ok", "proxy_ok", "proxy_backend_closed", "proxy_push_backend_closed", "proxy_backend_cut", "proxy_push_ok", "reply_write_fails", "handshake_timeout", "plugin_panics_on_error_reply", "relay_closed_status", "shipped_plugins_notfound", "shipped_plugins_error", "shipped_plugins_ok"}
+	kinds := []string{"ok", "notfound", "badbody", "panic", "veto", "closed_call", "cut_pending", "dial_fail", "proxy_ok", "proxy_ok", "proxy_backend_closed", "proxy_push_backend_closed", "proxy_backend_cut", "proxy_push_ok", "reply_write_fails", "handshake_timeout", "plugin_panics_on_error_reply", "relay_closed_status", "shipped_plugins_notfound", "shipped_plugins_error", "shipped_plugins_ok", "unsupported_type_frame", "unsupported_type_frame"}
 	n := 3 + r.Intn(13)
 	var hist []string
 	for i := 0; i < n; i++ {
@@ -230,6 +230,16 @@ func runC15(t *testing.T, seed uint64, m *Mask) *Report {
 				}
 				e.Issue(direct, rt, op, nil)
 				stampPanics = false
+			case "unsupported_type_frame":
+				// a foreign client sends a frame whose type the read loop does not serve (an authentication frame to a
+				// peer without a checker, an undefined type): the session is refused with the framework's 405 status
+				ra, rb := e.Net.Pair()
+				if _, st := backend.ServeConn(rb, pf); st.OK() {
+					mt := []byte{4, 5, 0, 9, 77}[e.Gen.Intn(5)]
+					world.NewRawPeer(ra, pf).Send(mt, int32(1+e.Gen.Intn(50)), "/std/echo", 'j', []byte(`{}`), nil, nil, nil)
+					simrt.WaitQuiescent()
+				}
+				ra.Close()
 			case "shipped_plugins_notfound":
 				connectPlugged()
 				e.Issue(plugged, pluggedRt, mkop("call", "/nope/on/plugged"), nil)
